@@ -57,10 +57,38 @@ func Install() {
 	verifhook.Set(handle)
 }
 
+// rendezvous: goroutines hitting the site wait (spinning, bounded) until n of
+// them have arrived, so that they leave it at the same instant. Used to align
+// competing flows in front of a compare-and-swap (C06). Not used in race mode.
+var (
+	rvSite  atomic.Pointer[string]
+	rvN     atomic.Int64
+	rvCount atomic.Int64
+)
+
+// Rendezvous makes groups of n goroutines leave `site` together ("" or n<2 disables).
+func Rendezvous(site string, n int) {
+	rvCount.Store(0)
+	rvN.Store(int64(n))
+	if site == "" || n < 2 {
+		rvSite.Store(nil)
+		return
+	}
+	rvSite.Store(&site)
+}
+
 func handle(site string) {
 	if !RaceMode {
 		if c := counts[site]; c != nil {
 			c.Add(1)
+		}
+		if s := rvSite.Load(); s != nil && *s == site {
+			n := rvN.Load()
+			k := rvCount.Add(1)
+			target := ((k-1)/n + 1) * n
+			for spins := 0; rvCount.Load() < target && spins < 200000; spins++ {
+			}
+			return
 		}
 	}
 	p := prob.Load()
